@@ -736,9 +736,11 @@ def sym_exp(x):
             args = CUR.__dict__.setdefault('exp_args', [])
             if not args:
                 CUR.solver.add(f(z3.RealVal(0)) == 1)
+                CUR.model = None
                 args.append(z3.RealVal(0))
             if not any(zx.eq(a) for a in args):
                 CUR.solver.add(e > 0)
+                CUR.model = None   # the cached model says nothing about Exp at a new argument
                 for a in args:  # strict monotonicity, instantiated pairwise
                     CUR.solver.add(z3.Implies(a < zx, f(a) < e), z3.Implies(zx < a, e < f(a)))
                 args.append(zx)
